@@ -134,6 +134,11 @@ func flight4Parse(
 			if psk, err = cfg.LocalPSKCallback(bytes.Clone(clientKeyExchange.IdentityHint)); err != nil {
 				return 0, &alert.Alert{Level: alert.Fatal, Description: alert.InternalError}, err
 			}
+			// A callback that knows no key for the identity may answer with an
+			// empty one; keys derived from it would follow from the hello randoms.
+			if len(psk) == 0 {
+				return 0, &alert.Alert{Level: alert.Fatal, Description: alert.DecryptError}, dtlserrors.ErrIdentityNoPSK
+			}
 			state.IdentityHint = bytes.Clone(clientKeyExchange.IdentityHint)
 			switch state.CipherSuite.KeyExchangeAlgorithm() {
 			case ciphersuite.KeyExchangeAlgorithmPsk:
